@@ -208,8 +208,9 @@ GScalar == ScalarsFull \cup {JArr(<<s>>) : s \in ScalarsFull} \cup {JObj(<<Pr("k
            \cup {JArr(<<JObj(<<Pr("ka", JArr(<<JStr(c), JNum("one")>>))>>)>>) : c \in HugeStr}
 (* G2: every array of <= 3 elements and every object of <= 3 pairs over a small alphabet (unsorted and duplicate keys
    arise by construction) *)
-GFlat == {JArr(es) : es \in SeqsUpTo(ScalarsLite, 3)} \cup
-         {JObj(ps) : ps \in SeqsUpTo({Pr(k, s) : k \in {"ka", "kb", "kA"}, s \in ScalarsLite}, 3)}
+GFlatW(w) == {JArr(es) : es \in SeqsUpTo(ScalarsLite, 3)} \cup
+             {JObj(ps) : ps \in SeqsUpTo({Pr(k, s) : k \in {"ka", "kb", "kA"}, s \in ScalarsLite}, w)}
+GFlat == GFlatW(3)
 (* G3: duplicate keys in every position: all key sequences of length 2..5 over three keys with a duplicate; the value
    of the pair at position i is the i-th number class, so the winner is identifiable *)
 GDups == { JObj([i \in 1..Len(ks) |-> Pr(ks[i], JNum(NumTable[i].c))]) :
@@ -230,6 +231,7 @@ Wrap(kind, mode, d) ==
       [] mode = "dupl" -> JObj(<<Pr("ka", JNull), Pr("kb", JBool(TRUE)), Pr("ka", d)>>)              \* d is the LAST "a"
       [] mode = "dupf" -> JObj(<<Pr("ka", d), Pr("ka", JBool(FALSE))>>)                              \* d is the FIRST "a"
       [] mode = "twin" -> JObj(<<Pr("kb", d), Pr("ka", d)>>)
+LeavesLite == ScalarsLite \cup {JStr("mixed"), JNum("negexp"), JArr(<<>>), JObj(<<>>)}
 Leaves == (ScalarsFull \ {JStr(c) : c \in HugeStr}) \cup {JArr(<<>>), JObj(<<>>)}      \* the 64 KiB strings stay in GScalar (size)
 
 (* a probe as emitted: `l` only when the policies disagree; when the answer itself contains duplicate keys, its two
